@@ -1572,7 +1572,19 @@ func aliasSources() []val {
 		{pushData([]byte{0x41}), "", "ByteString constant 'A'"},
 		{cat(pushData([]byte("ab")), pushData([]byte("c")), op(s.CAT), op(s.CONVERT, s.TByteStr)), "", "ByteString from CAT"},
 		{pushData(rep(0x55, 40)), "", "ByteString constant of 40 bytes"},
+		{op(s.PUSHT), "", "Boolean true"},
+		{op(s.PUSHF), "", "Boolean false"},
+		{pushI(1), "", "Integer 1"},
+		{cat(pushI(7), pushI(7), op(s.NUMEQUAL)), "", "Boolean computed by NUMEQUAL"},
 	}
+}
+
+// aliasReread is appended to every alias case: the byte forms of fresh
+// Booleans and small Integers, read after the mutations - an in-place write
+// must not have reached memory that other items are built from.
+func aliasReread() []byte {
+	return cat(op(s.PUSHT), op(s.CONVERT, s.TByteStr), op(s.PUSHF), op(s.CONVERT, s.TByteStr),
+		op(s.PUSHT), pushI(0), op(s.PICKITEM), pushI(1), op(s.CONVERT, s.TByteStr), pushI(0), op(s.CONVERT, s.TBuffer))
 }
 
 // aliasDerivations turn [x] into [x, y] where y is derived from x.
@@ -1623,7 +1635,7 @@ func aliasCase(i int) ([]byte, string) {
 	what := fmt.Sprintf("%s; %s; %s", src[x[2]].desc, der[x[1]].desc, mut[x[0]].desc)
 	switch x[3] {
 	case 0:
-		return body, "alias once: " + what
+		return cat(body, aliasReread()), "alias once: " + what
 	case 1:
 		// 0: CALL +5; 2: CALL +3; 4: RET; 5: body RET
 		return cat(op(s.CALL, 5), op(s.CALL, 3), op(s.RET), body, op(s.RET)), "alias called twice: " + what
@@ -1668,7 +1680,7 @@ func aliasRandom(r *rng.R) ([]byte, string) {
 			sc = cat(sc, pushI(int64(r.Intn(k+2))), op(s.PICK)) // go on from an older value
 		}
 	}
-	sc = cat(sc, op(s.LDSFLD0), op(s.LDSFLD0+1))
+	sc = cat(sc, op(s.LDSFLD0), op(s.LDSFLD0+1), aliasReread())
 	return sc, names
 }
 
